@@ -515,6 +515,7 @@ class DataPath:
                 and not part.map_condition.flatten()[1]
                 and part.map_condition.callable.name == "equal_to"
                 and part.label is None
+                and isinstance(part.list_condition.callable.kwargs["value"], int)
                 and type(part.list_condition.callable.kwargs["value"])
                 is type(part.map_condition.callable.kwargs["value"])
                 and part.list_condition.callable.kwargs["value"]
